@@ -1,14 +1,588 @@
-// Package instr rewrites gohlslib sources so that every synchronisation operation becomes a scheduling point.
+// Package instr rewrites Go sources so that every synchronisation operation becomes a scheduling point of
+// the vsched runtime: "sync" is re-imported as vsync, go statements become vsched.Go, channel operations
+// get Pre/Post points, select statements get an explicit, scheduler-controlled case preference, close()
+// and context cancel functions get a point in front of them. A construct the rewriter does not understand
+// is an error (the check then ends as an engine error, never as a verdict).
+//
+// The rewriter is purely syntactic (go/ast, no type information) and works by text splicing: emit(n)
+// returns the original text of n with every rewrite-needing descendant replaced recursively.
 package instr
+
+import (
+	"bytes"
+	"fmt"
+	"go/ast"
+	"go/format"
+	"go/parser"
+	"go/token"
+	"path/filepath"
+	"sort"
+	"strconv"
+	"strings"
+)
 
 // Config selects what the rewriter inserts.
 type Config struct {
 	RuntimeImport string   // import path of vsched
 	SyncImport    string   // import path of vsync (replaces "sync")
 	StmtPoints    []string // functions ("Type.method" or "func") whose statements each get a point
+	AtomicRanges  []string // functions whose range loops are made atomic (random map iteration order)
 }
 
-// Rewrite returns the instrumented source of one file.
+type rw struct {
+	cfg      Config
+	fset     *token.FileSet
+	src      []byte
+	file     *ast.File
+	base     string
+	inList   map[ast.Stmt]bool // statement is a member of a statement list
+	pointed  map[ast.Stmt]bool // statement gets a statement-level point
+	atomicFn map[ast.Node]bool // range statements to wrap
+	labelOf  map[ast.Stmt]*ast.LabeledStmt
+	err      error
+	changed  bool
+	tmp      int
+}
+
+// Rewrite returns the instrumented source of one file and whether anything was changed.
 func Rewrite(filename string, src []byte, cfg Config) ([]byte, bool, error) {
-	return src, false, nil
+	fset := token.NewFileSet()
+	f, err := parser.ParseFile(fset, filename, src, parser.SkipObjectResolution)
+	if err != nil {
+		return nil, false, err
+	}
+	r := &rw{cfg: cfg, fset: fset, src: src, file: f, base: filepath.Base(filename),
+		inList: map[ast.Stmt]bool{}, pointed: map[ast.Stmt]bool{}, atomicFn: map[ast.Node]bool{}, labelOf: map[ast.Stmt]*ast.LabeledStmt{}}
+	r.prepare()
+	var out bytes.Buffer
+	// package clause and everything up to the first declaration is copied; imports are regenerated
+	out.WriteString("package " + f.Name.Name + "\n\n")
+	needSync := false
+	for _, imp := range f.Imports {
+		p, _ := strconv.Unquote(imp.Path.Value)
+		name := ""
+		if imp.Name != nil {
+			name = imp.Name.Name + " "
+		}
+		if p == "sync" && cfg.SyncImport != "" {
+			alias := "sync"
+			if imp.Name != nil {
+				alias = imp.Name.Name
+			}
+			fmt.Fprintf(&out, "import %s %q\n", alias, cfg.SyncImport)
+			needSync = true
+			r.changed = true
+			continue
+		}
+		fmt.Fprintf(&out, "import %s%s\n", name, imp.Path.Value)
+	}
+	_ = needSync
+	body := &bytes.Buffer{}
+	for _, d := range f.Decls {
+		if gd, ok := d.(*ast.GenDecl); ok && gd.Tok == token.IMPORT {
+			continue
+		}
+		body.WriteString(r.emit(d))
+		body.WriteString("\n\n")
+	}
+	if r.err != nil {
+		return nil, false, r.err
+	}
+	if !r.changed {
+		return src, false, nil
+	}
+	fmt.Fprintf(&out, "import vsched %q\n\nvar _ = vsched.Active\n\n", cfg.RuntimeImport)
+	out.Write(body.Bytes())
+	res, err := format.Source(out.Bytes())
+	if err != nil {
+		return nil, false, fmt.Errorf("instrumented source does not parse: %v\n%s", err, numbered(out.String()))
+	}
+	return res, true, nil
+}
+
+func numbered(s string) string {
+	lines := strings.Split(s, "\n")
+	var b strings.Builder
+	for i, l := range lines {
+		fmt.Fprintf(&b, "%4d %s\n", i+1, l)
+	}
+	return b.String()
+}
+
+func funcName(fd *ast.FuncDecl) string {
+	if fd.Recv != nil && len(fd.Recv.List) == 1 {
+		t := fd.Recv.List[0].Type
+		if s, ok := t.(*ast.StarExpr); ok {
+			t = s.X
+		}
+		if id, ok := t.(*ast.Ident); ok {
+			return id.Name + "." + fd.Name.Name
+		}
+	}
+	return fd.Name.Name
+}
+
+func contains(l []string, s string) bool {
+	for _, x := range l {
+		if x == s || x == "*" {
+			return true
+		}
+	}
+	return false
+}
+
+func (r *rw) prepare() {
+	markLists := func(n ast.Node, pointed bool) {
+		ast.Inspect(n, func(n ast.Node) bool {
+			var list []ast.Stmt
+			switch x := n.(type) {
+			case *ast.BlockStmt:
+				list = x.List
+			case *ast.CaseClause:
+				list = x.Body
+			case *ast.CommClause:
+				list = x.Body
+			case *ast.LabeledStmt:
+				r.labelOf[x.Stmt] = x
+				if r.inList[x] {
+					r.inList[x.Stmt] = true
+				}
+			}
+			for _, s := range list {
+				r.inList[s] = true
+				if ls, ok := s.(*ast.LabeledStmt); ok {
+					r.inList[ls.Stmt] = true
+				}
+				if pointed {
+					r.pointed[s] = true
+				}
+			}
+			return true
+		})
+	}
+	for _, d := range r.file.Decls {
+		fd, ok := d.(*ast.FuncDecl)
+		if !ok || fd.Body == nil {
+			if ok {
+				continue
+			}
+			markLists(d, false)
+			continue
+		}
+		name := funcName(fd)
+		markLists(fd.Body, contains(r.cfg.StmtPoints, name))
+		if contains(r.cfg.AtomicRanges, name) {
+			ast.Inspect(fd.Body, func(n ast.Node) bool {
+				if rs, ok := n.(*ast.RangeStmt); ok {
+					r.atomicFn[rs] = true
+				}
+				return true
+			})
+		}
+	}
+}
+
+func (r *rw) fail(n ast.Node, format string, a ...any) {
+	if r.err == nil {
+		r.err = fmt.Errorf("%s: %s", r.fset.Position(n.Pos()), fmt.Sprintf(format, a...))
+	}
+}
+
+func (r *rw) text(n ast.Node) string {
+	return string(r.src[r.fset.Position(n.Pos()).Offset:r.fset.Position(n.End()).Offset])
+}
+
+func (r *rw) site(n ast.Node) string {
+	p := r.fset.Position(n.Pos())
+	return fmt.Sprintf("%s:%d", r.base, p.Line)
+}
+
+func isRecv(e ast.Expr) (*ast.UnaryExpr, bool) {
+	for {
+		if p, ok := e.(*ast.ParenExpr); ok {
+			e = p.X
+			continue
+		}
+		break
+	}
+	u, ok := e.(*ast.UnaryExpr)
+	if ok && u.Op == token.ARROW {
+		return u, true
+	}
+	return nil, false
+}
+
+func isCallTo(e ast.Expr, pkg, fn string) bool {
+	c, ok := e.(*ast.CallExpr)
+	if !ok {
+		return false
+	}
+	if pkg == "" {
+		id, ok := c.Fun.(*ast.Ident)
+		return ok && id.Name == fn
+	}
+	s, ok := c.Fun.(*ast.SelectorExpr)
+	if !ok {
+		return false
+	}
+	id, ok := s.X.(*ast.Ident)
+	return ok && id.Name == pkg && s.Sel.Name == fn
+}
+
+// needs reports whether n itself is rewritten (as opposed to merely containing rewritten nodes).
+func (r *rw) needs(n ast.Node) bool {
+	switch x := n.(type) {
+	case *ast.GoStmt, *ast.SelectStmt, *ast.SendStmt:
+		return true
+	case *ast.ExprStmt:
+		if _, ok := isRecv(x.X); ok {
+			return true
+		}
+		if isCallTo(x.X, "", "close") || isCallTo(x.X, "time", "Sleep") {
+			return true
+		}
+	case *ast.AssignStmt:
+		if len(x.Rhs) == 1 {
+			if _, ok := isRecv(x.Rhs[0]); ok {
+				return true
+			}
+		}
+	case *ast.DeferStmt:
+		if isCallTo(x.Call, "", "close") {
+			return true
+		}
+	case *ast.CallExpr:
+		if isCallTo(x, "context", "WithCancel") {
+			return true
+		}
+	case *ast.UnaryExpr:
+		if x.Op == token.ARROW {
+			return true // a receive in an unsupported position
+		}
+	case *ast.RangeStmt:
+		if r.atomicFn[x] {
+			return true
+		}
+	case *ast.LabeledStmt:
+		if _, ok := x.Stmt.(*ast.SelectStmt); ok {
+			return true
+		}
+	}
+	if s, ok := n.(ast.Stmt); ok && r.pointed[s] {
+		return true
+	}
+	return false
+}
+
+// emit returns the text of n with all rewrites applied.
+func (r *rw) emit(n ast.Node) string {
+	if n == nil {
+		return ""
+	}
+	if r.needs(n) {
+		r.changed = true
+		return r.rewrite(n)
+	}
+	return r.emitChildren(n)
+}
+
+// emitChildren copies n's text, replacing its outermost rewrite-needing descendants.
+func (r *rw) emitChildren(n ast.Node) string {
+	var subs []ast.Node
+	ast.Inspect(n, func(c ast.Node) bool {
+		if c == nil || c == n {
+			return true
+		}
+		if r.needs(c) {
+			subs = append(subs, c)
+			return false
+		}
+		return true
+	})
+	if len(subs) == 0 {
+		return r.text(n)
+	}
+	sort.Slice(subs, func(a, b int) bool { return subs[a].Pos() < subs[b].Pos() })
+	var b strings.Builder
+	off := r.fset.Position(n.Pos()).Offset
+	for _, c := range subs {
+		co := r.fset.Position(c.Pos()).Offset
+		b.Write(r.src[off:co])
+		r.changed = true
+		b.WriteString(r.rewrite(c))
+		off = r.fset.Position(c.End()).Offset
+	}
+	b.Write(r.src[off:r.fset.Position(n.End()).Offset])
+	return b.String()
+}
+
+func (r *rw) newTmp(prefix string) string {
+	r.tmp++
+	return fmt.Sprintf("_v%s%d", prefix, r.tmp)
+}
+
+func (r *rw) requireList(n ast.Stmt) {
+	if !r.inList[n] {
+		r.fail(n, "channel operation / go / select in a position that is not a statement list (unsupported by the rewriter)")
+	}
+}
+
+func (r *rw) rewrite(n ast.Node) string {
+	q := strconv.Quote
+	if s, ok := n.(ast.Stmt); ok && r.pointed[s] {
+		// statement-level point, then the statement itself (without the mark, to avoid recursion)
+		delete(r.pointed, s)
+		inner := r.emit(n)
+		r.pointed[s] = true
+		if _, isLabeled := n.(*ast.LabeledStmt); isLabeled {
+			return inner
+		}
+		return "vsched.Yield(" + q("stmt "+r.site(n)) + "); " + inner
+	}
+	switch x := n.(type) {
+	case *ast.GoStmt:
+		r.requireList(x)
+		if fl, ok := x.Call.Fun.(*ast.FuncLit); ok && len(x.Call.Args) == 0 {
+			return "vsched.Go(" + r.emit(fl) + ")"
+		}
+		var b strings.Builder
+		b.WriteString("{ ")
+		fn := r.newTmp("f")
+		b.WriteString(fn + " := " + r.emit(x.Call.Fun) + "; ")
+		var args []string
+		for i, a := range x.Call.Args {
+			an := r.newTmp("a")
+			b.WriteString(an + " := " + r.emit(a) + "; ")
+			if i == len(x.Call.Args)-1 && x.Call.Ellipsis.IsValid() {
+				an += "..."
+			}
+			args = append(args, an)
+		}
+		b.WriteString("vsched.Go(func() { " + fn + "(" + strings.Join(args, ", ") + ") }) }")
+		return b.String()
+
+	case *ast.SendStmt:
+		r.requireList(x)
+		s := q("send " + r.site(x))
+		return "vsched.Pre(" + s + "); " + r.emitChildren(x) + "; vsched.Post(" + s + ")"
+
+	case *ast.ExprStmt:
+		if _, ok := isRecv(x.X); ok {
+			r.requireList(x)
+			s := q("recv " + r.site(x))
+			return "vsched.Pre(" + s + "); " + r.recvText(x.X) + "; vsched.Post(" + s + ")"
+		}
+		if isCallTo(x.X, "", "close") {
+			r.requireList(x)
+			return "vsched.Yield(" + q("close "+r.site(x)) + "); " + r.emitChildren(x)
+		}
+		if isCallTo(x.X, "time", "Sleep") {
+			r.requireList(x)
+			c := x.X.(*ast.CallExpr)
+			return "vsched.Sleep(" + r.emit(c.Args[0]) + ")"
+		}
+
+	case *ast.AssignStmt:
+		r.requireList(x)
+		s := q("recv " + r.site(x))
+		var lhs []string
+		for _, l := range x.Lhs {
+			lhs = append(lhs, r.emit(l))
+		}
+		return "vsched.Pre(" + s + "); " + strings.Join(lhs, ", ") + " " + x.Tok.String() + " " + r.recvText(x.Rhs[0]) + "; vsched.Post(" + s + ")"
+
+	case *ast.DeferStmt:
+		return "defer func() { vsched.Yield(" + q("close "+r.site(x)) + "); " + r.emitChildren(x.Call) + " }()"
+
+	case *ast.CallExpr: // context.WithCancel
+		var args []string
+		for _, a := range x.Args {
+			args = append(args, r.emit(a))
+		}
+		return "vsched.WithCancel(" + strings.Join(args, ", ") + ")"
+
+	case *ast.UnaryExpr:
+		r.fail(x, "receive expression in an unsupported position")
+		return r.text(x)
+
+	case *ast.RangeStmt:
+		delete(r.atomicFn, x)
+		inner := r.emit(x)
+		return "vsched.AtomicBegin(); " + inner + "; vsched.AtomicEnd()"
+
+	case *ast.LabeledStmt:
+		sel := x.Stmt.(*ast.SelectStmt)
+		r.requireList(x)
+		return r.rewriteSelect(sel, x.Label.Name)
+
+	case *ast.SelectStmt:
+		r.requireList(x)
+		return r.rewriteSelect(x, "")
+	}
+	r.fail(n, "internal: no rewrite for %T", n)
+	return r.text(n)
+}
+
+// recvText returns "<-X" with X emitted.
+func (r *rw) recvText(e ast.Expr) string {
+	u, _ := isRecv(e)
+	return "<-" + r.emit(u.X)
+}
+
+type commCase struct {
+	chanExpr ast.Expr
+	doneLike bool
+	comm     func(ch string) string // the comm clause text with the channel expression replaced by ch
+	body     []ast.Stmt
+}
+
+func isDoneCall(e ast.Expr) bool {
+	c, ok := e.(*ast.CallExpr)
+	if !ok || len(c.Args) != 0 {
+		return false
+	}
+	s, ok := c.Fun.(*ast.SelectorExpr)
+	return ok && s.Sel.Name == "Done"
+}
+
+func (r *rw) emitStmts(list []ast.Stmt) string {
+	var b strings.Builder
+	for _, s := range list {
+		b.WriteString(r.emit(s))
+		b.WriteString("\n")
+	}
+	return b.String()
+}
+
+func (r *rw) rewriteSelect(sel *ast.SelectStmt, label string) string {
+	q := strconv.Quote
+	site := "select " + r.site(sel)
+	var cases []commCase
+	var defBody []ast.Stmt
+	hasDefault := false
+	for _, c := range sel.Body.List {
+		cc := c.(*ast.CommClause)
+		if cc.Comm == nil {
+			hasDefault = true
+			defBody = cc.Body
+			continue
+		}
+		var k commCase
+		k.body = cc.Body
+		switch s := cc.Comm.(type) {
+		case *ast.SendStmt:
+			k.chanExpr = s.Chan
+			val := r.emit(s.Value)
+			k.comm = func(ch string) string { return ch + " <- " + val }
+		case *ast.ExprStmt:
+			u, ok := isRecv(s.X)
+			if !ok {
+				r.fail(s, "unsupported select communication")
+				return r.text(sel)
+			}
+			k.chanExpr = u.X
+			k.comm = func(ch string) string { return "<-" + ch }
+		case *ast.AssignStmt:
+			u, ok := isRecv(s.Rhs[0])
+			if !ok || len(s.Rhs) != 1 {
+				r.fail(s, "unsupported select communication")
+				return r.text(sel)
+			}
+			k.chanExpr = u.X
+			var lhs []string
+			for _, l := range s.Lhs {
+				lhs = append(lhs, r.emit(l))
+			}
+			tok := s.Tok.String()
+			k.comm = func(ch string) string { return strings.Join(lhs, ", ") + " " + tok + " <-" + ch }
+		default:
+			r.fail(cc, "unsupported select communication")
+			return r.text(sel)
+		}
+		k.doneLike = isDoneCall(k.chanExpr)
+		cases = append(cases, k)
+	}
+	n := len(cases)
+	lbl := ""
+	if label != "" {
+		lbl = label + ": "
+	}
+	if n == 0 {
+		if hasDefault {
+			return lbl + "switch { default: " + r.emitStmts(defBody) + "}"
+		}
+		r.fail(sel, "empty select blocks forever")
+		return r.text(sel)
+	}
+	var b strings.Builder
+	b.WriteString("{\n")
+	chans := make([]string, n)
+	for i, k := range cases {
+		chans[i] = r.newTmp("c")
+		fmt.Fprintf(&b, "%s := %s\n", chans[i], r.emit(k.chanExpr))
+	}
+	// bodies are emitted once as text and duplicated
+	bodies := make([]string, n)
+	for i, k := range cases {
+		bodies[i] = r.emitStmts(k.body)
+	}
+	defText := ""
+	if hasDefault {
+		defText = r.emitStmts(defBody)
+	}
+	fmt.Fprintf(&b, "vsched.Yield(%s)\n", q(site))
+	if n == 1 {
+		// a single communication: plain operation
+		if hasDefault {
+			fmt.Fprintf(&b, "%sselect {\ncase %s:\n%s\ndefault:\n%s}\n}", lbl, cases[0].comm(chans[0]), bodies[0], defText)
+			return b.String()
+		}
+		fmt.Fprintf(&b, "vsched.Enter(%s)\n%sselect {\ncase %s:\nvsched.Post(%s)\n%s}\n}", q(site), lbl, cases[0].comm(chans[0]), q(site), bodies[0])
+		return b.String()
+	}
+	kvar, dvar := r.newTmp("k"), r.newTmp("d")
+	var poss []string
+	for i, k := range cases {
+		if k.doneLike {
+			poss = append(poss, "vsched.Closed("+chans[i]+")")
+		} else {
+			poss = append(poss, "true")
+		}
+	}
+	fmt.Fprintf(&b, "%s, %s := vsched.SelectPref(%s, []bool{%s})\n_ = %s\n", kvar, dvar, q(site), strings.Join(poss, ", "), dvar)
+	fmt.Fprintf(&b, "%sswitch %s {\n", lbl, kvar)
+	for start := 0; start < n; start++ {
+		if start == n-1 {
+			b.WriteString("default:\n")
+		} else {
+			fmt.Fprintf(&b, "case %d:\n", start)
+		}
+		// nested non-blocking attempts in rotation order
+		closers := 0
+		for j := 0; j < n; j++ {
+			i := (start + j) % n
+			moot := ""
+			if j > 0 {
+				moot = "if " + dvar + " { vsched.MootLast() }\n"
+			}
+			fmt.Fprintf(&b, "select {\ncase %s:\n%s%s\ndefault:\n", cases[i].comm(chans[i]), moot, bodies[i])
+			closers++
+		}
+		if hasDefault {
+			b.WriteString("if " + dvar + " { vsched.MootLast() }\n")
+			b.WriteString(defText)
+		} else {
+			b.WriteString("if " + dvar + " { vsched.MootLast() }\n")
+			fmt.Fprintf(&b, "vsched.Enter(%s)\nselect {\n", q(site))
+			for i := range cases {
+				fmt.Fprintf(&b, "case %s:\nvsched.Post(%s)\n%s\n", cases[i].comm(chans[i]), q(site), bodies[i])
+			}
+			b.WriteString("}\n")
+		}
+		for ; closers > 0; closers-- {
+			b.WriteString("}\n")
+		}
+	}
+	b.WriteString("}\n}")
+	return b.String()
 }
